@@ -3568,7 +3568,11 @@ impl SctpInner {
         // Mark all chunks of abandoned messages in one pass.
         if !abandon_set.is_empty() {
             for record in sent_queue.values_mut() {
-                if abandon_set.contains(&(record.stream_id, record.ssn)) {
+                // Only partially-reliable chunks may be abandoned: DCEP OPEN/ACK (and
+                // anything else sent reliably) share stream id and SSN 0 with user
+                // messages but must be retransmitted until acknowledged.
+                let is_pr_sctp = record.max_retransmits.is_some() || record.expiry.is_some();
+                if is_pr_sctp && abandon_set.contains(&(record.stream_id, record.ssn)) {
                     record.abandoned = true;
                     record.needs_retransmit = false;
                     if record.in_flight {
